@@ -272,7 +272,8 @@ PENDING_REASON = "check not built yet in this round (design in DESIGN.md section
 
 # Extensions made after the seeding waves (appended to the level text / note of the check).
 ADDENDA = {
-    "C09": " The pair also runs on FrameCount.POSTPONED renderables (resolving to definite / INDEFINITE, read or unread), with a hash-colliding pair of render-args values and with output that depends on the duration setting.",
+    "C09": " The pair also runs on FrameCount.POSTPONED renderables (resolving to definite / INDEFINITE, read or unread), with a hash-colliding pair of render-args values and with output that depends on the duration setting. "
+           "Render-args re-application with equal-valued distinct objects (quick tier: the canon then also records whether a cache entry holds the current args object); draw()'s internal iterator with infinite / finite loops interrupted at every output point, render count <= distinct frames.",
     "C01": " Plus the iter(image) entry point (frames == str(image) at that frame, exactly rendered_size).",
     "C12": " Configurations also vary the process environment (TERM_PROGRAM / TERM_PROGRAM_VERSION unset or set, judged against the documented fallback wherever XTVERSION is unsupported, disabled or unanswered, with a reply taking precedence) and the configured query timeout (0.05 / 0.1 / 0.5 s, + 0.03 in thorough) with reply delays on both sides of the 0.1 s default; elapsed virtual time is bounded by the configured timeout per query. "
            "DA1 reply variants include a 174-byte reply (drained tail longer than one read chunk).",
@@ -328,7 +329,8 @@ ADDENDA = {
     "C10": " The render-data finalizer hook and every call into a (subclassed) padding object during size validation / "
            "iterator priming are fault points too (OSError, KeyboardInterrupt); a constructor that raised is followed by "
            "a garbage collection. "
-           "Padding-object faults also strike inside _from_render_data_ (caller data with finalize=False must stay un-finalized and reusable).",
+           "Padding-object faults also strike inside _from_render_data_ (caller data with finalize=False must stay un-finalized and reusable). "
+           "_from_render_data_ over already-finalized caller data with finalize=True and finalize=False must be rejected.",
     "C11": " Dynamic sizes (FIT, FIT_TO_WIDTH) with terminal resizes between and inside cached loops are part of the "
            "fault-free iteration searches (depth 7 / 8); for every draw(), a persistent standard-output failure from "
            "every write/flush index on (BrokenPipeError; ValueError of a closed stream in thorough), after which the "
